@@ -40,7 +40,7 @@ ASSUMPTIONS = [
     "json.loads and yaml.load(SafeLoader / CSafeLoader) are trusted as decoders; the wrapper logic around them is what is checked "
     "(where the two YAML loaders disagree on a text either verdict is accepted)",
     "lenient cases (either outcome accepted): JSON scalar documents, whitespace-only JSON, scalar/null after noise, empty top-level "
-    "mapping/sequence (value or skip), noise in str input, the '365 days' vs 'adjacent year' reading of the rollover note",
+    "mapping/sequence (value or skip), noise in str input",
     "timestamp-shaped substrings are valid dates; time formats in one list either all carry a year or none does",
     "bounded: no counterexample within the stated line / token / depth bounds over the stated alphabets, nothing more",
 ]
@@ -608,7 +608,7 @@ TIME_FORMATS = {
 }
 TIME_FORMAT_NAMES = {"quick": ["default", "syslog", "syslog0", "list", "dict"],
                      "thorough": ["default", "syslog", "syslog0", "list", "dict", "noyear_list"]}
-QUERY_TIMES = {"quick": [[2021, 6, 15, 12, 0, 0], [2021, 1, 1, 0, 0, 0], [2021, 12, 31, 23, 59, 59]],
+QUERY_TIMES = {"quick": [[2021, 6, 15, 12, 0, 0], [2021, 1, 1, 0, 0, 0], [2021, 12, 31, 23, 59, 59], [2024, 1, 1, 0, 0, 0]],
                "thorough": [[2021, 6, 15, 12, 0, 0], [2021, 1, 1, 0, 0, 0], [2021, 12, 31, 23, 59, 59],
                             [2020, 12, 31, 23, 59, 59], [2024, 1, 1, 0, 0, 0]]}
 LEAP_QUERY_TIMES = [[2024, 2, 29, 0, 0, 0], [2024, 2, 28, 23, 59, 59], [2024, 3, 1, 0, 0, 0]]
@@ -713,7 +713,11 @@ def check_time(fmt, tq, symset, log, s):
                           (type(ex) is UnboundLocalError and "'ts'" in str(ex))):
             f["family"] = "yearless-leap-day-strptime"
         v.append(("time:raises", exp, "raised %r" % (ex,), f))
-    if got is not None and got != exp and got != alt:
+    # The statement is the authority: "precisely the timestamped lines at or after the given time" means true calendar
+    # dates, i.e. the adjacent-YEAR reading of the rollover note. (The first version also accepted the docstring's literal
+    # "shift by 365 days", which is wrong in leap years; a seeded change implementing exactly that showed the leniency
+    # was weaker than the statement. `alt` is kept only to measure how often the two readings differ.)
+    if got is not None and got != exp:
         v.append(("time:lines-at-or-after-plus-continuations", exp, got, feats))
     # measured non-triviality
     used = [x for x in lines if s is None or all(w in x[0] for w in ([s] if isinstance(s, str) else s))]
